@@ -35,7 +35,7 @@ N6 == MkTree(<<C(<<2, 3>>), Once(1), C(<<4, 7>>), C(<<5, 6>>), Once(0), Unl(1), 
 FlatTrees   == {F1, F2, F3, F4, F5, F6, F7, F8}
 NestedTrees == {N1, N2, N3, N4, N5, N6}
 ProbeTrees  == {N4, N5, N6}
-QuickTrees  == {F1, F2, F6, F8}
+QuickTrees  == {F1, F2, F6}      \* (F8 and the other flat trees: Schedule_exh_flat, thorough tier)
 AllTrees    == FlatTrees \cup NestedTrees
 OneTree     == {F1}
 SmallTrees  == {F1, F3, F7}
@@ -43,6 +43,29 @@ LeftBugTrees == {F7}
 
 \* behaviour export (M2): at the end of a walk print the whole history for the replayer
 Export == Done => PrintT(<<"VERIF", ToJson([tree |-> tree, hist |-> hist, left_after_root |-> [k \in 1..Len(tree.kids[1]) |-> LAfter(tree, 1, k)]])>>)
+
+\* The same step relation with one NAMED disjunct per action, so that `-coverage 1` reports how often each action of
+\* Schedule.tla was taken (Step hides them behind a CASE); used by the exhaustive configurations of the thorough tier.
+A_CallNext == \E c \in Callers : CallNext(c) /\ Lab(c, "CallNext")
+A_CallLeft == \E c \in Callers : CallLeft(c) /\ Lab(c, "CallLeft")
+A_NRLock == \E c \in Callers : NRLock(c) /\ Lab(c, "NRLock")
+A_NChild == \E c \in Callers : NChild(c) /\ Lab(c, "NChild")
+A_NGot == \E c \in Callers : NGot(c) /\ Lab(c, "NGot")
+A_NLock == \E c \in Callers : NLock(c) /\ Lab(c, "NLock")
+A_NWGot1 == \E c \in Callers : NWGot1(c) /\ Lab(c, "NWGot1")
+A_NWGot2 == \E c \in Callers : NWGot2(c) /\ Lab(c, "NWGot2")
+A_LRLock == \E c \in Callers : LRLock(c) /\ Lab(c, "LRLock")
+A_LChild == \E c \in Callers : LChild(c) /\ Lab(c, "LChild")
+A_LGot == \E c \in Callers : LGot(c) /\ Lab(c, "LGot")
+A_LLock == \E c \in Callers : LLock(c) /\ Lab(c, "LLock")
+A_LWGot == \E c \in Callers : LWGot(c) /\ Lab(c, "LWGot")
+A_LUnlock == \E c \in Callers : LUnlock(c) /\ Lab(c, "LUnlock")
+NextCov == Tick \/ CtorProbe \/ A_CallNext \/ A_CallLeft \/ A_NRLock \/ A_NChild \/ A_NGot \/ A_NLock \/ A_NWGot1 \/ A_NWGot2 \/ A_LRLock \/ A_LChild \/ A_LGot \/ A_LLock \/ A_LWGot \/ A_LUnlock
+SpecCov == Init /\ [][NextCov]_vars
+
+\* callers are interchangeable (model values in the exhaustive configurations): the only place that singles one out is
+\* CtorProbe's CHOOSE, taken while every caller is idle, so the successor relation is closed under permutation
+Perms == Permutations(Callers)
 
 NL == {"N", "L"}
 OnlyN == {"N"}
